@@ -118,6 +118,18 @@ def resolve_callees(px: PyIndex, f: Func, call: ast.Call) -> typing.Tuple[typing
         if fn.id in params or fn.id in loopvars:
             return [], "indirect"
         return [], "external"
+    if isinstance(fn, ast.Call):
+        # call of a call result, e.g. Cls.get_instance()(...): the __call__ of the class owning the factory
+        inner = px.resolve_call(f, fn)
+        outc = []
+        for g in inner:
+            if g.cls is not None:
+                c = g.cls.mro_lookup("__call__")
+                if c is not None:
+                    outc.append(c)
+        if outc:
+            return outc, "resolved"
+        return [], "external"
     r = px.resolve_call(f, call)
     if r:
         return r, "resolved"
